@@ -37,7 +37,22 @@ def lattice(tier, seed):
                 cells.append({"method": m, "t_eval": te, "shape": sh, "args": (n % 2 == 0), "max_step": (0.0625 if n % 3 == 0 else None),
                               "tol": (1e-8 if n % 2 else 1e-5), "atolf": (1.0 if n % 3 else 1e-3),      # atol = tol * atolf: distinct tolerances
                               "dense": bool(n % 4 == 1), "events": bool(n % 5 == 0)})
+    # backward spans through the facade (without t_eval, which it only accepts on forward spans): with and without step bounds
+    for m in methods:
+        for k, sh in enumerate(("vec2", "mat22")):
+            for ms in (None, 0.0625, 0.5):
+                n += 1
+                if not thorough and (n + seed) % 2 and ms is None:
+                    continue
+                if m == "ABAS5O6H" and ms is None and sh == "mat22":
+                    continue
+                cells.append({"method": m, "t_eval": None, "shape": sh, "args": (n % 2 == 0), "max_step": ms, "tol": 1e-6, "atolf": 1.0,
+                              "dense": bool(n % 2), "events": False, "backward": True, "min_step": (1e-7 if n % 3 == 0 else None)})
     return cells
+
+
+class Budget(BaseException):       # not an Exception: integrate() must not wrap it
+    pass
 
 
 def _problem(cell):
@@ -50,14 +65,23 @@ def _problem(cell):
         y0 = np.array([1.0, 0.5])
     else:
         y0 = np.array([[1.0, 0.5], [0.25, 2.0]])
+    calls = [0]
+
+    def tick():
+        calls[0] += 1
+        if calls[0] > 300000:       # the largest legitimate cell needs about 30 000 evaluations
+            raise Budget("more than 300000 right-hand-side evaluations")
+    sg = -1.0 if cell.get("backward") else 1.0      # the time-reflected problem on a backward span (the forward one blows up backward in time)
     if cell["args"]:
         # a right-hand side with MORE parameters than the args tuple supplies: args bind to the parameters that follow (t, y), the rest keep defaults
         def f(t, y, a, b, c=1.0):
-            return -a * y * y + b * np.cos(c * t)
+            tick()
+            return sg * (-a * y * y + b * np.cos(c * t))
         args = (0.75, 0.125)
     else:
         def f(t, y):
-            return -0.75 * y * y + 0.125 * np.cos(t)
+            tick()
+            return sg * (-0.75 * y * y + 0.125 * np.cos(t))
         args = None
     return f, y0, args
 
@@ -69,10 +93,12 @@ def cell_job(cell):
     out = {"cell": {k: (list(v) if isinstance(v, list) else v) for k, v in cell.items()}, "ran": False}
     meth = cell["method"]
     method = getattr(de.integrators, meth[4:]) if meth.startswith("cls:") else meth
-    span = (0.0, 2.0)
+    span = (2.0, 0.0) if cell.get("backward") else (0.0, 2.0)
     opts = dict(rtol=cell["tol"], atol=cell["tol"] * cell.get("atolf", 1.0), first_step=0.25)
     if cell["max_step"] is not None:
         opts["max_step"] = cell["max_step"]
+    if cell.get("min_step") is not None:
+        opts["min_step"] = cell["min_step"]
     evs = None
     if cell["events"] and cell["shape"] != "scalar0":
         def ev(t, y, **constants):
@@ -101,7 +127,9 @@ def cell_job(cell):
                 pair = pair and any(np.array_equal(sy[i], y[..., k]) for i in idx)
         out["columnsPair"] = bool(pair)
         out["tGaps"] = [] if te is None else [num.gap_units(a, b, [b], np.float64) for a, b in zip(t, sorted(te))] if len(t) == len(te) else []
-        out["sortedNondecreasing"] = bool(np.all(np.diff(t) >= 0))
+        out["sortedNondecreasing"] = bool(np.all(np.diff(t) >= 0)) if not cell.get("backward") else bool(np.all(np.diff(t) <= 0))
+        # without t_eval and without a terminal event the run covers the span
+        out["endUnits"] = num.gap_units(t[-1], span[1], [span[1], span[0]], np.float64) if (te is None and nt > 0) else 0
         # steps of the underlying system against max_step
         steps = np.abs(np.diff(np.asarray(sysm.t)))
         ms = cell["max_step"]
@@ -117,7 +145,9 @@ def cell_job(cell):
         o.method = method
         cbs = []
         if ms is not None:
-            cbs.append(lambda s_: setattr(s_, "dt", np.clip(s_.dt, 0.0, ms)))
+            cbs.append(lambda s_: setattr(s_, "dt", np.clip(np.abs(s_.dt), cell.get("min_step") or 0.0, ms)))      # bounds are magnitudes
+        elif cell.get("min_step") is not None:
+            cbs.append(lambda s_: setattr(s_, "dt", np.clip(np.abs(s_.dt), cell["min_step"], np.inf)))
         ot, oy = [], []
         if te is None:
             o.integrate(callback=cbs, events=evs)
@@ -133,7 +163,8 @@ def cell_job(cell):
         out["argsBoundInOrder"] = True
         if args is not None:
             res2 = de.solve_ivp(f, span, y0, method=method, t_eval=cell["t_eval"], args=(args[1], args[0]), **opts)
-            ref = de.solve_ivp(lambda t_, y_: -args[0] * y_ * y_ + args[1] * np.cos(t_), span, y0, method=method, t_eval=cell["t_eval"], **opts)
+            sg_ = -1.0 if cell.get("backward") else 1.0
+            ref = de.solve_ivp(lambda t_, y_: sg_ * (-args[0] * y_ * y_ + args[1] * np.cos(t_)), span, y0, method=method, t_eval=cell["t_eval"], **opts)
             out["argsBoundInOrder"] = bool(np.array_equal(np.asarray(ref.y), y) and not np.array_equal(np.asarray(res2.y), y))
         # scipy (exploration): end state at tight tolerance
         out["scipyTolUnits"] = -1
@@ -143,11 +174,14 @@ def cell_job(cell):
         if evs is None and adaptive:
             fs = (lambda t_, y_: f(t_, y_.reshape(y0.shape), *(args or ())).reshape(-1))
             tend = span[1] if te is None else sorted(te)[-1]
-            if tend > span[0]:
+            if tend != span[0]:
                 ref = scipy.integrate.solve_ivp(fs, (span[0], tend), np.asarray(y0, dtype=float).reshape(-1), method="DOP853", rtol=1e-12, atol=1e-12)
                 yend = ref.y[:, -1].reshape(y0.shape)
                 out["scipyTolUnits"] = twins.tol_units(y[..., -1], yend, cell["tol"], cell["tol"] * cell.get("atolf", 1.0))
                 out["solTolUnits"] = out["scipyTolUnits"] if te is not None else -1
+    except Budget as e:
+        out["ran"] = False
+        out["error"] = "RunTerminates: %s" % e
     except Exception as e:      # noqa
         out["error"] = "%s: %s" % (type(e).__name__, str(e)[:160])
     return out
@@ -161,7 +195,7 @@ def check(run, replay=None):
     cells = lattice(run.tier, run.seed)
     obs = core.pool_map(cell_job, cells)
     defaults = {"ran": False, "tShapeOk": True, "yShapeOk": True, "startsAtInitialCondition": True, "columnsPair": True, "hasTEval": False, "nTEval": 0, "tGaps": [],
-                "sortedNondecreasing": True, "solTolUnits": -1, "argsBoundInOrder": True, "maxStepUnits": 0, "fieldsOfUnderlyingSystem": True,
+                "sortedNondecreasing": True, "endUnits": 0, "solTolUnits": -1, "argsBoundInOrder": True, "maxStepUnits": 0, "fieldsOfUnderlyingSystem": True,
                 "objectApiIdentical": True, "scipyTolUnits": -1}
     payload = []
     for k, o in enumerate(obs):
